@@ -66,7 +66,7 @@ def check(ck):
                     classes.add(("recorded" if rec else "unrecorded") + "->" + rv)
             want = {"raise-located"} if nn else {"recorded->None"}
             ck.ob(f"handle_field_error table: non-null={nn}", classes == want, f, f.node, construct=f"table:non_null={nn}",
-                  detail=f"got {sorted(classes)}, want {sorted(want)}")
+                  detail=f"got {sorted(classes)}, want {sorted(want)}" + atoms.note())
 
     with ck.rule("R2"):
         f = repo.func(COMMON, "complete_value_catching_error")
@@ -119,7 +119,7 @@ def check(ck):
                     classes.add("return " + (unparse(last.ast.value) if isinstance(last.ast, ast.Return) else "None"))
             want = {"raise"} if isnull else {f"return {out}"}
             ck.ob(f"non_null_coercer table: inner result is None = {isnull}", classes == want, f, f.node,
-                  construct=f"table:is_null={isnull}", detail=f"got {sorted(classes)}")
+                  construct=f"table:is_null={isnull}", detail=f"got {sorted(classes)}" + atoms.note())
 
     with ck.rule("R4"):
         w = repo.func("tartiflette/coercers/outputs/null_coercer.py", "null_coercer_wrapper")
@@ -137,7 +137,7 @@ def check(ck):
                 classes.add(("calls-coercer" if called else "no-call") + "->" + rv)
             want = {"no-call->None"} if isnull else {f"calls-coercer->await {cp}({first}, *args, **kwargs)"}
             ck.ob(f"null_coercer_wrapper table: result is None = {isnull}", classes == want, inner, inner.node,
-                  construct=f"table:is_null={isnull}", detail=f"got {sorted(classes)}")
+                  construct=f"table:is_null={isnull}", detail=f"got {sorted(classes)}" + atoms.note())
         rets = FuncView(w).returns()
         ck.ob("null_coercer_wrapper returns the wrapper", len(rets) == 1 and unparse(rets[0].value) == inner.name, w, w.node, construct="nullwrap:return")
         decorated = []
